@@ -51,6 +51,10 @@ pub fn replay_other(_prop: &str, kind: &str, case: &serde_json::Value) -> Option
             let mix = case.get("mix")?.as_u64()? as usize;
             Some(grids::c12_loop_case(n, mix).map(|v| vec![(0, v.clause, v.detail)]).unwrap_or_default())
         }
+        "string_extend" => {
+            let d = enumerators::string_extend_case(case.get("items")?.as_u64()? as usize, case.get("k")?.as_u64()? as u16, case.get("hinted")?.as_bool()?);
+            Some(d.map(|d| vec![(0, "C18.string_extend".to_string(), d)]).unwrap_or_default())
+        }
         "bytes" | "units" | "value" | "bytes_range" => values::replay_value(case),
         "niche" | "clone_sweep" | "ctor" | "decoder" | "decoder_growth" | "short_value" | "global_refusal" => sweeps::replay_sweep(kind, case),
         _ => None,
